@@ -318,6 +318,67 @@ async def _close_session(lib_is_server: bool, standard: bool, variant: str, into
     return events
 
 
+async def _reader_while_closing_session(lib_is_server: bool, standard: bool, into: bool, answer: bool) -> list[dict[str, Any]]:
+    """The reader's half while the library side is closing: a task is parked in recv / recv_into, another task calls aclose(), and the
+    peer either answers with its close notification (answer=True: the complete stream) or just drops the connection (the stream is cut
+    short of the close notification).  What the parked reader observes is a TLSTruncation behaviour like any other."""
+    from easynetwork.lowlevel.api_async.backend._asyncio.backend import AsyncIOBackend
+    from easynetwork.lowlevel.api_async.transports.tls import AsyncTLSStreamTransport
+
+    backend = AsyncIOBackend()
+    lib2peer, peer2lib = memtransport.MemPipe(), memtransport.MemPipe()
+    inner = memtransport.MemStreamTransport(backend, peer2lib, lib2peer)
+    peer = tlspeer.Peer(lib2peer, peer2lib, server_side=not lib_is_server)
+    hs = asyncio.ensure_future(peer.handshake())
+    kw: dict[str, Any] = {"standard_compatible": standard, "shutdown_timeout": 2, "handshake_timeout": 30}
+    if lib_is_server:
+        tls = await AsyncTLSStreamTransport.wrap(inner, tlspeer.server_context(), server_side=True, **kw)
+    else:
+        tls = await AsyncTLSStreamTransport.wrap(inner, tlspeer.client_context(), server_hostname="localhost", **kw)
+    await hs
+    events: list[dict[str, Any]] = [{"ev": "wrap_ok"}]
+
+    async def lib_read() -> bytes:
+        if into:
+            buf = bytearray(4096)
+            return bytes(buf[: await tls.recv_into(buf)])
+        return await tls.recv(4096)
+
+    await peer.write(b"hello")
+    data = await lib_read()
+    events.append({"ev": "data", "n": len(data), "ok": data == b"hello"})
+
+    async def parked() -> None:
+        try:
+            d = await lib_read()
+            events.append({"ev": "eof"} if not d else {"ev": "data", "n": len(d), "ok": False})
+        except (ssl.SSLError, OSError):
+            events.append({"ev": "error"})
+
+    reader = asyncio.ensure_future(parked())
+    for _ in range(5):
+        await asyncio.sleep(0)
+    closer = asyncio.ensure_future(tls.aclose())
+    for _ in range(10):
+        await asyncio.sleep(0)
+    if answer:
+        try:
+            while await peer.read():
+                pass
+            await peer.close_notify()
+        except (ssl.SSLError, OSError):
+            pass
+    else:
+        peer2lib.close_write()  # the connection drops: no close notification will ever come
+    await asyncio.wait([reader, closer], timeout=30)
+    for t in (reader, closer):
+        if not t.done():
+            events.append({"ev": "crash:hangs"})
+            t.cancel()
+    await asyncio.gather(reader, closer, return_exceptions=True)
+    return events
+
+
 def _blocking_close_session(lib_is_server: bool, standard: bool, variant: str) -> list[dict[str, Any]]:
     """Blocking SSLStreamTransport.close() in the situations that exist without concurrency: first / peer_first / unread."""
     from easynetwork.lowlevel.api_sync.transports.socket import SSLStreamTransport
@@ -459,6 +520,23 @@ def run(chk: Check) -> None:
                         "meta": f"blocking role={'server' if lib_is_server else 'client'} standard={standard} {'recv_into' if into else 'recv'} cut={k}/{Lb}",
                     }
                 )
+        # ... and with a reader parked while another task closes the transport (standard-compatible mode: that is where a clean
+        # end-of-stream has to be earned; without it aclose() sends nothing and simply closes the transport under the reader)
+        for standard in (True,):
+            for into in (False, True):
+                for answer in (True, False):
+                    try:
+                        evs = vloop.run(lambda: _reader_while_closing_session(lib_is_server, standard, into, answer), spin_limit=20000)
+                    except vloop.VirtualDeadlock:
+                        evs = [{"ev": "crash:deadlock"}]
+                    rec.append(
+                        {
+                            "par": {"total": 100, "cut": 100 if answer else 99, "plain": 5, "standard": standard},
+                            "events": traces.uniform(evs, EVD),
+                            "meta": f"async role={'server' if lib_is_server else 'client'} standard={standard} {'recv_into' if into else 'recv'} reader parked while another task closes, "
+                            + ("the peer answers with its close notification" if answer else "the peer drops the connection instead of answering"),
+                        }
+                    )
         ok = vloop.run(lambda: _close_sends_notify(lib_is_server))
         chk.traces += 1
         if not ok:
